@@ -208,6 +208,11 @@ func sweepTransfer(r *hx.Run, p *pipeline, transit []byte, idx int, rnd *hx.Rand
 	res := parMap(n, func(i int) result {
 		return guard(func() result { return p.runSite(body{script: tcs[i].sc}, aux) })
 	})
+	for _, st := range []int{404, 500, 503, 206, 204} {
+		got := guard(func() result { return p.runSite(body{data: transit, status: st}, aux) })
+		r.Case(fmt.Sprintf("xfer %s#%d status %d", p.name, idx, st), true)
+		judge(r, f, "status", fmt.Sprintf("primary download answered with status %d", st), nil, false, got)
+	}
 	for i, c := range tcs {
 		if r.Stop() {
 			return
@@ -333,6 +338,9 @@ func sweepParts(r *hx.Run, p *pipeline, transit []byte, idx int, rnd *hx.Rand, c
 				sc.End = registry.EndClose
 				ds = append(ds, dm{fmt.Sprintf("%s-content-length-long@%d", name, k), body{script: sc}, nil})
 			}
+		}
+		for _, st := range []int{404, 500, 503, 206, 204} {
+			ds = append(ds, dm{fmt.Sprintf("%s-status-%d", name, st), body{data: d, status: st}, nil})
 		}
 		res := parMap(len(ds), func(i int) result {
 			return guard(func() result { return p.runSite(body{data: transit}, withAux(aux, name, ds[i].b)) })
